@@ -218,7 +218,16 @@ def _main(prop: str, tier: str, seed: int, a: Any) -> int:
 		if native is not None and native.status == 'violated':
 			violations.append(Violation(prop, native.detail, r.ob.func, r.ob.name, r.ob.clause, inputs, native.detail, r.res.detail[:1500], key))
 			continue
-		# model did not replay (loop-head state, ghost fact, abstract object): search with the bounded twin
+		# model did not replay (loop-head state, ghost fact, abstract object): a declared end-to-end witness, then the bounded twin
+		if c is not None and c.witness and hasattr(mod, c.witness) and f'w:{c.witness}' not in by_func_done:
+			by_func_done.add(f'w:{c.witness}')
+			try:
+				okw, why = getattr(mod, c.witness)()
+			except Exception as e:  # noqa: BLE001
+				okw, why = False, f'{type(e).__name__}: {e}'
+			if okw:
+				violations.append(Violation(prop, why, r.ob.func, r.ob.name, r.ob.clause, {'witness': c.witness, 'observed': why}, why, (json.dumps(jsonable(r.res.model))[:800] if r.res.model else r.res.detail[:800]), key))
+				continue
 		found = None
 		if c is not None and c.qualname in gens and r.ob.func not in by_func_done:
 			n, inp, out, _ = twin_search(c, gens[c.qualname], seed, tier, 20.0, 200000)
